@@ -68,6 +68,30 @@ pub fn main(args: &[String]) -> i32 {
         let mut obs = c.clone();
         obs.as_object_mut().unwrap().remove("src");
         obs["srcb"] = bytes(src);
+        // `pre_rules`: rules that run BEFORE `rules` in the same configuration. The text judged as the source is what
+        // [pre_rules] alone writes; the text judged as the output is what [pre_rules, rules] writes for the same file.
+        let joined;
+        let rules = match c["pre_rules"].as_str() {
+            Some(pre) => {
+                match run_text(src, pre, &generator) {
+                    Ok(mid) => {
+                        obs["origb"] = bytes(src);
+                        obs["srcb"] = bytes(&mid);
+                    }
+                    Err(e) => {
+                        obs["outb"] = json!([]);
+                        obs["status"] = json!(format!("parse_error: pre rules: {}", e));
+                        out.emit(&obs);
+                        continue;
+                    }
+                }
+                let a = pre.trim().trim_start_matches('[').trim_end_matches(']').trim();
+                let b = rules.trim().trim_start_matches('[').trim_end_matches(']').trim();
+                joined = if a.is_empty() { format!("[{}]", b) } else if b.is_empty() { format!("[{}]", a) } else { format!("[{}, {}]", a, b) };
+                joined.as_str()
+            }
+            None => rules,
+        };
         match run_text(src, rules, &generator) {
             Ok(text) => {
                 obs["outb"] = bytes(&text);
